@@ -181,6 +181,26 @@ def cnf_layouts(r, n, clauses):
 def gen_cnf(r):
     n = r.choice([0, 1, 2, 3, 4, 5, 6, 8, 10, 12, 14])
     shape = r.random()
+    if shape < 0.03:
+        # long implication chains feeding small conflict gadgets (deep reason chains exercise the depth limit
+        # of recursive nogood minimisation); satisfiable by construction (all chain variables false)
+        comps = r.randint(3, 8)
+        clauses = []
+        nv = 0
+        for _ in range(comps):
+            L = r.randint(520, 1300)
+            a = list(range(nv + 1, nv + L + 1))
+            b, c = nv + L + 1, nv + L + 2
+            nv += L + 2
+            for i in range(L - 1):
+                clauses.append([-a[i], a[i + 1]])
+            for sb in (1, -1):
+                for sc in (1, -1):
+                    clauses.append([-a[-1], sb * b, sc * c])
+            # make the head of the chain attractive for the search
+            clauses.append([a[0], b])
+            clauses.append([a[0], -b, c])
+        return nv, clauses, ["cnf.large", "cnf.deep_chains"]
     if shape < 0.12:
         # larger instances (hundreds of conflicts, so that restarts and learned-clause database reduction
         # happen): ground truth comes from the certificate (model line / checked DRAT proof)
@@ -302,7 +322,7 @@ def case_cnf(r, i, d):
     res = result(i, classes, layouts[0][1], ["--proof-path", "<proof>"] + opts)
     res["config"]["options"] = opts
     # None: too large for brute force, the verdict is validated through its certificate
-    expected = cnf_brute(n, clauses) if n <= 14 else (False if "cnf.pigeonhole" in classes else None)
+    expected = cnf_brute(n, clauses) if n <= 14 else (False if "cnf.pigeonhole" in classes else True if "cnf.deep_chains" in classes else None)
     if n > 14:
         layouts = layouts[:3]
     verdicts = {}
